@@ -35,6 +35,7 @@ class FS:
         self.dead = False
         self.oplog = []         # kinds of the mutating operations performed (for evidence)
         self.hook = None        # called at every file-system access (C12: pre-emption windows at file granularity)
+        self.writers = []       # open write handles: a handle follows its file through rename (POSIX inode semantics)
 
     # -- fault machinery
     def arm(self, crash_at, torn=0):
@@ -117,6 +118,9 @@ class FS:
             raise FileNotFoundError(n)
         self.mutate("unlink")
         del self.files[n]
+        for w in self.writers:
+            if w.n == n:
+                w.n = None
 
     def rmdir(self, p):
         n = self.touch("rmdir", p)
@@ -142,6 +146,11 @@ class FS:
             raise FileNotFoundError(d)
         self.mutate("rename")
         self.files[d] = self.files.pop(s)
+        for w in self.writers:
+            if w.n == d:
+                w.n = None          # the file that was at dst is gone (its handle writes into an unlinked inode)
+            elif w.n == s:
+                w.n = d             # an open handle follows the renamed file
 
     def listdir(self, p):
         n = self.touch("list", p)
@@ -179,6 +188,7 @@ class _Writer:
         self.fs, self.n, self.text = fs, n, text
         self.buf = []
         self.closed = False
+        fs.writers.append(self)
 
     def write(self, b):
         self.fs.alive()
@@ -199,6 +209,8 @@ class _Writer:
             return
         self.closed = True
         fs = self.fs
+        if self in fs.writers:
+            fs.writers.remove(self)
         if fs.dead:
             raise Crash()
         data = b"".join(self.buf)
